@@ -502,6 +502,15 @@ func genConc(prop string, seed uint64, run int, p concProfile, av avoid) *Case {
 		}
 		cs.Threads = append(cs.Threads, ThreadProg{Role: "indexer", Txns: []TxnProg{t}})
 	}
+	// fault: a quarter of the failing transactions panic instead of returning an error (own stream)
+	pr := NewRng(seed, uint64(run), 91)
+	for ti := range cs.Threads {
+		for xi := range cs.Threads[ti].Txns {
+			if t := &cs.Threads[ti].Txns[xi]; t.Abort && pr.Chance(0.25) {
+				t.Panic = true
+			}
+		}
+	}
 	// buggify: in half of the runs the mutex points of the instrumented build do not yield
 	// (unless the mutex is held), so the coarse interleavings of the hand-placed hooks keep
 	// their share of the budget. Own PRNG stream.
